@@ -136,6 +136,12 @@ def run_case(case: dict) -> dict:
             res["status"] = "excluded"
             res["excluded_by"] = "same-source-two-roles"
             return res
+        if fam == "c03" and "const-cell-data" in excl:
+            _d, cd, _e = c03._support(stmts)
+            if any(not v for v in cd.values()):
+                res["status"] = "excluded"
+                res["excluded_by"] = "const-cell-data"
+                return res
         if fam == "c02" and (c02.static_tags(stmts) | ({"same-source-two-roles"} if c02.same_source_two_roles(stmts) else set())) & excl:
             res["status"] = "excluded"
             res["excluded_by"] = "bundle-wiring"
